@@ -365,6 +365,7 @@ def split_item_line(line: str) -> Optional[dict]:
     Returns None for lines that are not item first lines.  Independent of
     zorg's own line surgery (handlers._pop_line_before_zid).
     """
+    line = line.rstrip("\r")
     m = _ITEM_RE.match(line)
     if not m:
         return None
